@@ -46,7 +46,9 @@ func Dump(w io.Writer, r io.Reader) (err error) {
 func makeNumReader(r io.Reader) func() uint32 {
 	buf := make([]byte, 4)
 	return func() uint32 {
-		if _, err := r.Read(buf); err != nil {
+		// a bufio.Reader hands out what is left in its buffer: a number that
+		// straddles a buffer boundary needs more than one Read
+		if _, err := io.ReadFull(r, buf); err != nil {
 			panic(err)
 		}
 		return binary.LittleEndian.Uint32(buf)
